@@ -335,9 +335,9 @@ func C01(c *Ctx) {
 	// ---- R4
 	c01Inequal(c, m)
 	// ---- R5
-	mt := c.fn("match", "Matcher", "match")
-	if mt != nil {
-		n5 := 0
+	// (in match itself, or in whichever helper of the matcher holds the array case)
+	n5 := 0
+	for _, mt := range m.fns {
 		ssau.Instrs(mt, func(in ssa.Instruction) {
 			lk, ok := in.(*ssa.Lookup)
 			if !ok || !lk.CommaOk {
